@@ -399,7 +399,11 @@ func checkC07(c *Ctx) {
 			}
 		}
 		if n == 0 {
-			r.Unk("C07.14", "ingestRegistration: probe call", f.Pos(), fnName(f), "PhantomIsLive is not called directly by ingestRegistration")
+			if _, ok := findOneDeep(f, shortIs("PhantomIsLive")); ok {
+				r.OK("C07.14", "ingestRegistration: the probe sits in a helper of the package", f.Pos(), "the handling of its verdict is decided there by C07.1 / C07.2 (phase-split queries); this rule only reads the inlined form")
+			} else {
+				r.Unk("C07.14", "ingestRegistration: probe call", f.Pos(), fnName(f), "PhantomIsLive is not called by ingestRegistration or a helper of its package")
+			}
 		}
 	}
 
